@@ -48,10 +48,24 @@ ListenKinds == {"LA2", "LA4", "LA4D", "LADEP", "LA212", "LB106"} \cup LfKinds \c
 \* ("device gone" seen at the frontend): no host command at all, the documented answer is IOError(ENODEV)
 CloseKinds  == {"XCLOSE", "SCLOSE", "LCLOSE"}
 OpKinds     == SenseKinds \cup ListenKinds \cup CloseKinds
-Mode(k) == IF k \in TargetKinds THEN "target" ELSE IF k \in SenseKinds THEN "sense"
+\* PAYLOAD LENGTH kinds "LI<n>" / "LT<n>": the exchange of kind TT4A (initiator) resp. LDEP (target) with a
+\* payload of n bytes, n at the driver's host frame format boundaries and at its documented maximum
+\* (get_max_send_data_size): PN532/PN533/RC-S956 switch from the normal to the extended information frame at
+\* 254 payload bytes and take 263; PN531 / ACR122 take 252; RC-S380 and udp 290.  The allowed outcomes are those
+\* of the base kind - a payload length never changes the class of a result, with or without a fault.
+LenVals(d) == IF d \in {"pn532", "pn533", "rcs956", "arygon"} THEN {252, 253, 254, 255, 262, 263}
+              ELSE IF d \in {"pn531", "acr122"} THEN {251, 252} ELSE {289, 290}
+LenAll == {251, 252, 253, 254, 255, 262, 263, 289, 290}
+LI(n) == "LI" \o ToString(n)
+LT(n) == "LT" \o ToString(n)
+LenInitKinds == {LI(n) : n \in LenAll}
+LenTargetKinds == {LT(n) : n \in LenAll}
+LenKindsAll == LenInitKinds \cup LenTargetKinds
+BaseKind(k) == IF k \in LenInitKinds THEN "TT4A" ELSE IF k \in LenTargetKinds THEN "LDEP" ELSE k
+Mode(k) == IF k \in TargetKinds \cup LenTargetKinds THEN "target" ELSE IF k \in SenseKinds THEN "sense"
            ELSE IF k \in ListenKinds THEN "listen" ELSE IF k \in CloseKinds THEN "closed" ELSE "initiator"
 
-ExKinds(d) ==
+ExKinds0(d) ==
   CASE d = "pn531"  -> (InitKinds \ {"TT1", "TT1CIU", "TT4B"}) \cup TargetKinds
     [] d \in Pn532ish -> InitKinds \cup TargetKinds
     [] d = "rcs956" -> (InitKinds \ {"TT1CIU"}) \cup {"LTT2", "LDEP", "LDEPRX"}
@@ -59,12 +73,15 @@ ExKinds(d) ==
     [] d = "rcs380" -> (InitKinds \ {"TT1CIU", "DEPACT"}) \cup TargetKinds
     [] d = "udp"    -> (InitKinds \ {"TT1CIU", "DEPACT"}) \cup {"LTT2", "LTT4", "LTT3", "LDEP"}
 \* every driver is asked for every operation: what it does not support must say so as documented
+LenKinds(d) == {LI(n) : n \in LenVals(d)} \cup (IF "LDEP" \in ExKinds0(d) THEN {LT(n) : n \in LenVals(d)} ELSE {})
+ExKinds(d) == ExKinds0(d) \cup LenKinds(d)
 Kinds(d) == ExKinds(d) \cup OpKinds
 
 Rep(x, n) == [i \in 1..n |-> x]
 
 \* the host commands of one exchange, in order (names as the simulated chip logs them)
-ExCmds(d, k) ==
+ExCmds(d, kk) ==
+  LET k == BaseKind(kk) IN
   IF d = "udp" THEN <<"sendto", "recvfrom">>
   ELSE IF d = "rcs380" THEN
        IF k \in TargetKinds THEN <<"TgCommRF">>
@@ -296,7 +313,9 @@ OpFaults(d, c, tier) ==
 Case(d, k, at, f) == [d |-> d, k |-> k, at |-> at, f |-> f]
 SliceCases(d, k, tier) ==
   UNION {{Case(d, k, at, f) : f \in (IF k \in OpKinds THEN OpFaults(d, Cmds(d, k)[at], tier)
-                                      ELSE SliceFaults(d, Cmds(d, k)[at], IsFinal(d, k, at), tier))}
+                                      ELSE SliceFaults(d, Cmds(d, k)[at], IsFinal(d, k, at),
+                                                       \* length kinds: the small fault sample at every command
+                                                       IF k \in LenKindsAll THEN "reach" ELSE tier))}
          : at \in 1..NCmd(d, k)}
 AllCases(tier) == UNION {UNION {SliceCases(d, k, tier) \cup {Case(d, k, 0, NoFault)} : k \in Kinds(d)}
                          : d \in Drivers}
